@@ -913,6 +913,56 @@ Proof.
   apply (C01_roundtrip_thm o lib comp lo ds cs' H Hc Hs Hwf Hemit).
 Qed.
 
+(* per kind: each kind of record comes back as the corresponding calls, in call order *)
+Definition is_header_call (c : wcall) : bool := match c with CHeader _ => true | _ => false end.
+Definition is_schema_call (c : wcall) : bool := match c with CSchema _ => true | _ => false end.
+Definition is_channel_call (c : wcall) : bool := match c with CChannel _ => true | _ => false end.
+
+Theorem C01_trace_classes_thm : forall o lib comp unz cs',
+  C06_hyps o lib comp cs' ->
+  (forall n plain, unz (o_comp o) (comp n plain) = plain) ->
+  Forall call_small cs' ->
+  let R := W o lib comp None (cs' ++ [CClose]) in
+  let recs := data_records unz (rev (w_trace (r_final R))) in
+  (* (a) schemas, channels and messages, in their mutual call order *)
+  filter is_auto recs = expected_records o lib (filter call_auto cs') /\
+  (* (b) attachments *)
+  filter is_att recs = expected_records o lib (filter is_attachment cs') /\
+  (* (c) metadata *)
+  filter (is_op OpMetadata) recs = expected_records o lib (filter is_metadata cs') /\
+  (* the header; header, attachments and metadata in their mutual call order *)
+  filter (is_op OpHeader) recs = expected_records o lib (filter is_header_call cs') /\
+  filter is_direct recs = expected_records o lib (filter call_direct cs') /\
+  (* messages alone, schemas alone, channels alone *)
+  filter (is_op OpMessage) recs = expected_records o lib (filter is_message cs') /\
+  filter (is_op OpSchema) recs = expected_records o lib (filter is_schema_call cs') /\
+  filter (is_op OpChannel) recs = expected_records o lib (filter is_channel_call cs').
+Proof.
+  intros o lib comp unz cs' H Hunz Hs R recs.
+  destruct (C01_trace_content_thm o lib comp unz cs' H Hunz Hs) as [D A]. fold R in D, A. fold recs in D, A.
+  assert (XA : forall (p : crec -> bool) (pc : wcall -> bool), (forall r, p r = true -> is_auto r = true) ->
+             (forall c, filter p (call_rec o lib c) = if pc c then call_rec o lib c else []) ->
+             filter p recs = expected_records o lib (filter pc cs')).
+  { intros p pc H1 H2. rewrite <- (filter_refine p is_auto recs H1), A, (filter_refine p is_auto _ H1).
+    apply filter_expected, H2. }
+  assert (XD : forall (p : crec -> bool) (pc : wcall -> bool), (forall r, p r = true -> is_direct r = true) ->
+             (forall c, filter p (call_rec o lib c) = if pc c then call_rec o lib c else []) ->
+             filter p recs = expected_records o lib (filter pc cs')).
+  { intros p pc H1 H2. rewrite <- (filter_refine p is_direct recs H1), D, (filter_refine p is_direct _ H1).
+    apply filter_expected, H2. }
+  assert (Hop : forall x r, is_op x r = true -> exists body, r = CR x body).
+  { intros x [op body|? ? ?]; cbn; intro E; [|discriminate]. apply Byte.byte_dec_bl in E. subst. eauto. }
+  refine (conj _ (conj _ (conj _ (conj _ (conj _ (conj _ (conj _ _))))))).
+  - apply XA; [auto|]. intros [ | | | | | | ]; reflexivity.
+  - apply XD; [intros r; destruct r; cbn; (discriminate || reflexivity)|]. intros c; destruct c; reflexivity.
+  - apply XD; [|intros [ | | | | | | ]; reflexivity]. intros r Hr. destruct (Hop _ _ Hr) as (b & ->). reflexivity.
+  - apply XD; [|intros [ | | | | | | ]; reflexivity]. intros r Hr. destruct (Hop _ _ Hr) as (b & ->). reflexivity.
+  - apply XD; [auto|]. intros [ | | | | | | ]; reflexivity.
+  - apply XA; [|intros [ | | | | | | ]; reflexivity]. intros r Hr. destruct (Hop _ _ Hr) as (b & ->). reflexivity.
+  - apply XA; [|intros [ | | | | | | ]; reflexivity]. intros r Hr. destruct (Hop _ _ Hr) as (b & ->). reflexivity.
+  - apply XA; [|intros [ | | | | | | ]; reflexivity]. intros r Hr. destruct (Hop _ _ Hr) as (b & ->). reflexivity.
+Qed.
+
 (* ====================================================================== *)
 (** * 4. C11: unknown records are skipped *)
 
@@ -1022,6 +1072,58 @@ Proof.
       parse_enc_attindex, parse_enc_statistics, parse_enc_metadata, parse_enc_mdindex, parse_enc_sumoffset.
 Qed.
 
+(* the eleventh extensible record: an attachment record with bytes appended after its CRC.  The
+   lexer's attachment handler reports the same observation and consumes the appended bytes. *)
+Lemma do_attachment_pad_thm lo a data crc pad rest e sk :
+  wf_attach_item lo a data crc ->
+  do_attachment lo (blen (attach_body a data crc ++ pad)) (rd ((attach_body a data crc ++ pad) ++ rest) e sk)
+  = (match lo_cb lo with CbFull => Some (EvAttachment (attach_obs lo a data crc)) | _ => None end,
+     None, rd rest e sk).
+Proof.
+  intros (W1 & W2 & W3 & W4 & W5 & W6 & W7 & _ & Wcb).
+  unfold do_attachment. destruct Wcb as [Hcb | Hcb]; rewrite Hcb; cbv beta iota zeta.
+  - rewrite rd_skip_exact. reflexivity.
+  - set (body := attach_body a data crc).
+    assert (Hlim : limited (blen (body ++ pad)) (rd ((body ++ pad) ++ rest) e sk) = @pair bytes (option err) (body ++ pad) None).
+    { unfold limited, rd. cbn [r_buf r_end]. rewrite (LexerFactsB.blen_app (body ++ pad) rest).
+      destruct (N.leb_spec (blen (body ++ pad)) (blen (body ++ pad) + blen rest)); [|lia].
+      rewrite take_app_exact. reflexivity. }
+    rewrite Hlim. cbn [fst snd].
+    assert (H : skipn 0 (body ++ pad) = u64 (a_log a) ++ u64 (a_create a) ++ pstr (a_name a) ++ pstr (a_media a)
+                               ++ u64 (a_size a) ++ data ++ u32 crc ++ pad).
+    { unfold body, attach_body, enc_attachment_fields. rewrite <- !app_assoc. reflexivity. }
+        destruct (lim_read_step 8 (body ++ pad) None _ _ _ H (u64_length _)) as [E1 S1]; [lia|]. rewrite E1. cbn [bind].
+    destruct (lim_read_step 8 (body ++ pad) None _ _ _ S1 (u64_length _)) as [E2 S2]; [lia|]. rewrite E2. cbn [bind].
+    destruct (lim_pstr_step (body ++ pad) None _ _ _ S2 W3) as [E3 S3]. rewrite E3. cbn [bind].
+    destruct (lim_pstr_step (body ++ pad) None _ _ _ S3 W4) as [E4 S4]. rewrite E4. cbn [bind].
+    destruct (lim_read_step 8 (body ++ pad) None _ _ _ S4 (u64_length _)) as [E5 S5]; [lia|]. rewrite E5. cbn [bind].
+    set (o5 := (0 + 8 + 8 + 4 + length (a_name a) + 4 + length (a_media a) + 8)%nat) in *.
+    assert (Hsz : a_size a < two63).
+    { rewrite W5. unfold body, attach_body in W7. rewrite !LexerFactsB.blen_app in W7. lia. }
+    rewrite !unle_u64 by (try assumption; unfold two63, two64 in *; lia).
+    destruct (N.ltb_spec 9223372036854775807 (a_size a)); [unfold two63 in Hsz; lia|].
+    rewrite S5. rewrite W5, take_app_exact.
+    rewrite N.ltb_irrefl.
+    assert (Ho5 : (o5 + length data)%nat = length (enc_attachment_fields a ++ data)).
+    { pose proof (skipn_length_sub _ _ _ S5) as L. rewrite !app_length, u32_length in L.
+      unfold body, attach_body in L. rewrite !app_length, u32_length in L. rewrite app_length. lia. }
+    rewrite Ho5.
+    assert (S6 : skipn (length (enc_attachment_fields a ++ data)) (body ++ pad) = u32 crc ++ pad).
+    { unfold body, attach_body. rewrite (app_assoc _ data), <- app_assoc. apply skipn_app_exact. }
+    destruct (lim_read_step 4 (body ++ pad) None _ _ _ S6 (u32_length _)) as [E6 _]; [lia|]. rewrite E6.
+    rewrite unle_u32 by exact W6.
+    replace (firstn (length (enc_attachment_fields a ++ data)) (body ++ pad)) with (enc_attachment_fields a ++ data)
+      by (unfold body, attach_body; rewrite (app_assoc _ data), <- app_assoc, firstn_app_exact; reflexivity).
+    assert (Hcons : (length (enc_attachment_fields a ++ data) + 4)%nat = length body).
+    { unfold body, attach_body. rewrite (app_assoc _ data), (app_length _ (u32 crc)), u32_length. reflexivity. }
+    rewrite Hcons. cbn [rd r_buf r_end r_seek]. rewrite <- (app_assoc body pad rest), skipn_app_exact.
+    replace (blen (body ++ pad) - N.of_nat (length body)) with (blen pad)
+      by (rewrite LexerFactsB.blen_app; unfold blen; lia).
+    change {| r_buf := pad ++ rest; r_end := e; r_seek := sk |} with (rd (pad ++ rest) e sk).
+    rewrite rd_skip_exact.
+    unfold attach_obs. rewrite <- W5. reflexivity.
+Qed.
+
 (* ====================================================================== *)
 (** * 5. C12: the layout is invisible *)
 
@@ -1110,3 +1212,285 @@ Proof.
     cbn [call_rec]. unfold header_library. rewrite Hov. reflexivity. }
   rewrite A1, A2, B1, B2, E. split; reflexivity.
 Qed.
+
+(* ====================================================================== *)
+(** * 6. concrete workloads *)
+
+(* tactics that establish wf_item / wf_file for closed terms by computation *)
+Ltac leaf :=
+  first [ reflexivity | discriminate | (vm_compute; reflexivity) | (vm_compute; discriminate)
+        | (left; vm_compute; reflexivity) | (right; vm_compute; reflexivity) ].
+
+Ltac wf_chunk_tac :=
+  lazymatch goal with
+  | |- wf_chunk_item ?lo ?ds ?k =>
+    let inner := eval vm_compute in (chunk_inner lo ds k) in
+    unfold wf_chunk_item;
+    replace (lo_emit_chunks lo) with false by (vm_compute; reflexivity);
+    refine (conj _ (conj _ (conj _ (conj _ (conj _ _)))));
+    [ unfold wf_chunk; refine (conj _ (conj _ (conj _ (conj _ (conj _ _))))); leaf
+    | leaf | leaf | leaf | leaf
+    | exists inner; refine (conj _ (conj _ (conj _ (conj _ _))));
+      [ leaf | leaf
+      | repeat (apply Forall_cons; [unfold plain_rec_ok; cbn [fst snd];
+                                    refine (conj _ (conj _ (conj _ (conj _ _)))); leaf|]); apply Forall_nil
+      | leaf
+      | intros _; refine (conj _ (conj _ _)); [leaf | leaf | first [discriminate | (vm_compute; discriminate) | (intros _; leaf)]] ] ]
+  end.
+
+Ltac wf_item_tac :=
+  lazymatch goal with
+  | |- wf_item _ _ (IRec _ _) =>
+    cbn [wf_item]; unfold plain_rec_ok; cbn [fst snd]; refine (conj _ (conj _ (conj _ (conj _ _)))); leaf
+  | |- wf_item _ _ (IFooter _ _ _) => cbn [wf_item]; refine (conj _ (conj _ (conj _ _))); leaf
+  | |- wf_item _ _ (IAttach _ _ _) =>
+    cbn [wf_item]; unfold wf_attach_item;
+    refine (conj _ (conj _ (conj _ (conj _ (conj _ (conj _ (conj _ (conj _ _)))))))); leaf
+  | |- wf_item _ _ (IChunk _) => cbn [wf_item]; wf_chunk_tac
+  end.
+
+Ltac wf_items_tac := repeat (apply Forall_cons; [wf_item_tac|]); apply Forall_nil.
+
+(* the middle of a closed item list: drop the first and the last element *)
+Definition middle {A} (l : list A) : list A := removelast (tl l).
+
+Ltac wf_file_tac :=
+  lazymatch goal with
+  | |- wf_file ?lo ?ds ?items =>
+    let recs := eval vm_compute in (middle items) in
+    exists recs; split; [vm_compute; reflexivity | wf_items_tac]
+  end.
+
+(* ---------- the chunked, CRC-enabled workload of WriterFactsB (2 chunks, an attachment, metadata) ---------- *)
+Definition ex_unz : bytes -> bytes -> bytes := fun _ stored => stored.
+Definition ex_lo : lopts := ex_lopts true false CbFull.
+Definition ex_R : wresult := W ex_o ex_lib ex_comp None ex_cs.
+Definition ex_trace : list item := rev (w_trace (r_final ex_R)).
+
+Lemma ex_C06_hyps : C06_hyps ex_o ex_lib ex_comp ex_cs_pre.
+Proof.
+  unfold C06_hyps. split; [vm_compute; reflexivity|]. split.
+  - vm_compute. repeat constructor.
+  - unfold ex_cs_pre. repeat constructor; discriminate.
+Qed.
+
+Lemma ex_unz_ok : forall n plain, ex_unz (o_comp ex_o) (ex_comp n plain) = plain.
+Proof. reflexivity. Qed.
+
+Lemma ex_call_small : Forall call_small ex_cs_pre.
+Proof. unfold ex_cs_pre. repeat constructor; vm_compute; reflexivity. Qed.
+
+Lemma ex_call_wf : Forall (call_wf ex_o ex_lib) ex_cs_pre.
+Proof.
+  unfold ex_cs_pre. repeat (apply Forall_cons; [|]); try apply Forall_nil; cbn [call_wf]; try exact I.
+  - split; vm_compute; reflexivity.
+  - repeat split; vm_compute; reflexivity.
+  - unfold wf_channel. refine (conj _ (conj _ (conj _ (conj _ (conj _ _))))); [leaf|leaf|leaf|leaf| |leaf].
+    split; constructor.
+  - repeat split; vm_compute; reflexivity.
+  - repeat split; vm_compute; reflexivity.
+  - repeat split; vm_compute; reflexivity.
+  - unfold wf_metadata. refine (conj _ (conj _ _)); [leaf| |leaf].
+    split; [cbn [map fst]; repeat constructor; intros []|].
+    repeat constructor; vm_compute; reflexivity.
+Qed.
+
+Lemma ex_codec_ok : codec_ok ex_lo ds_id ex_o ex_comp.
+Proof. intros n plain. reflexivity. Qed.
+
+Lemma ex_trace_wf : wf_file ex_lo ds_id ex_trace.
+Proof. wf_file_tac. Qed.
+
+(* computed independently of the theorems: the flattened data section of the trace holds exactly
+   the records asked for, per class *)
+Example ex_data_records :
+  filter is_auto (data_records ex_unz ex_trace) = filter is_auto (expected_records ex_o ex_lib ex_cs_pre) /\
+  filter is_direct (data_records ex_unz ex_trace) = filter is_direct (expected_records ex_o ex_lib ex_cs_pre) /\
+  length (filter is_auto (data_records ex_unz ex_trace)) = 5%nat /\
+  length (filter is_direct (data_records ex_unz ex_trace)) = 3%nat /\
+  length (all_records ex_unz ex_trace) = 25%nat.
+Proof. vm_compute. repeat split. Qed.
+
+(* the lexer model run on the bytes the writer model produced; the decoded tokens are the records
+   that were written (streaming and seekable source, CRC validation on) *)
+Example ex_lex_written : forall sk,
+  match lex_all ex_lo ds_id 40 (src_of (file_of ex_R) sk) with
+  | Ok (evs, EEOF, _) =>
+    map decode_event (filter ev_auto (data_events evs))
+      = map Ok (flat_map (call_contents ex_lo ex_o ex_lib) (filter call_auto ex_cs_pre)) /\
+    map decode_event (filter ev_direct (data_events evs))
+      = map Ok (flat_map (call_contents ex_lo ex_o ex_lib) (filter call_direct ex_cs_pre)) /\
+    length (filter ev_auto (data_events evs)) = 5%nat /\ length (filter ev_direct (data_events evs)) = 3%nat
+  | _ => False
+  end.
+Proof. intros [|]; vm_compute; repeat split. Qed.
+
+Example ex_fuel : (file_steps ex_lo ds_id ex_trace + 1 <= 40)%nat.
+Proof. vm_compute. lia. Qed.
+
+(* ---------- the same calls, two more configurations: a compressing codec, and no chunking ---------- *)
+(* a toy codec: the "compressor" prepends a byte, the decoder drops it *)
+Definition comp_z (n : nat) (b : bytes) : bytes := xff :: b.
+Definition ds_z : doracle := fun _ avail pend => (tl avail, pend).
+Definition ex_o_z : wopts :=
+  {| o_crc := true; o_chunked := true; o_chunksize := 40; o_comp := comp_zstd; o_custom := false;
+     o_skip_mi := false; o_skip_stats := false; o_skip_rsh := false; o_skip_rch := false;
+     o_skip_ai := false; o_skip_mdi := false; o_skip_ci := false; o_skip_so := false;
+     o_override_lib := false; o_skip_magic := false |}.
+Definition ex_o_u : wopts :=
+  {| o_crc := true; o_chunked := false; o_chunksize := 40; o_comp := []; o_custom := false;
+     o_skip_mi := false; o_skip_stats := true; o_skip_rsh := false; o_skip_rch := true;
+     o_skip_ai := false; o_skip_mdi := true; o_skip_ci := false; o_skip_so := true;
+     o_override_lib := false; o_skip_magic := false |}.
+Definition ex_trace_z : list item := rev (w_trace (r_final (W ex_o_z ex_lib comp_z None ex_cs))).
+Definition ex_trace_u : list item := rev (w_trace (r_final (W ex_o_u ex_lib ex_comp None ex_cs))).
+
+Lemma ex_C06_hyps_z : C06_hyps ex_o_z ex_lib comp_z ex_cs_pre.
+Proof.
+  unfold C06_hyps. split; [vm_compute; reflexivity|]. split.
+  - vm_compute. repeat constructor.
+  - unfold ex_cs_pre. repeat constructor; discriminate.
+Qed.
+Lemma ex_C06_hyps_u : C06_hyps ex_o_u ex_lib ex_comp ex_cs_pre.
+Proof.
+  unfold C06_hyps. split; [vm_compute; reflexivity|]. split.
+  - vm_compute. repeat constructor.
+  - unfold ex_cs_pre. repeat constructor; discriminate.
+Qed.
+Lemma ex_codec_ok_z : codec_ok ex_lo ds_z ex_o_z comp_z.
+Proof. intros n plain. reflexivity. Qed.
+Lemma ex_codec_ok_u : codec_ok ex_lo ds_z ex_o_u ex_comp.
+Proof. intros n plain. reflexivity. Qed.
+Lemma ex_codec_ok_n : codec_ok ex_lo ds_z ex_o ex_comp.
+Proof. intros n plain. reflexivity. Qed.
+Lemma ex_trace_wf_z : wf_file ex_lo ds_z ex_trace_z.
+Proof. wf_file_tac. Qed.
+Lemma ex_trace_wf_u : wf_file ex_lo ds_z ex_trace_u.
+Proof. wf_file_tac. Qed.
+Lemma ex_trace_wf_n : wf_file ex_lo ds_z ex_trace.
+Proof. wf_file_tac. Qed.
+
+(* a chunk size larger than the file: the messages stay in the chunk buffer until Close *)
+Definition ex_o_big : wopts :=
+  {| o_crc := true; o_chunked := true; o_chunksize := 100000; o_comp := []; o_custom := false;
+     o_skip_mi := true; o_skip_stats := false; o_skip_rsh := true; o_skip_rch := false;
+     o_skip_ai := true; o_skip_mdi := false; o_skip_ci := true; o_skip_so := false;
+     o_override_lib := false; o_skip_magic := false |}.
+Definition ex_trace_big : list item := rev (w_trace (r_final (W ex_o_big ex_lib ex_comp None ex_cs))).
+Lemma ex_C06_hyps_big : C06_hyps ex_o_big ex_lib ex_comp ex_cs_pre.
+Proof.
+  unfold C06_hyps. split; [vm_compute; reflexivity|]. split.
+  - vm_compute. repeat constructor.
+  - unfold ex_cs_pre. repeat constructor; discriminate.
+Qed.
+Lemma ex_codec_ok_big : codec_ok ex_lo ds_z ex_o_big ex_comp.
+Proof. intros n plain. reflexivity. Qed.
+Lemma ex_trace_wf_big : wf_file ex_lo ds_z ex_trace_big.
+Proof. wf_file_tac. Qed.
+
+(* four different layouts of the same calls (2 uncompressed chunks / 2 "compressed" chunks / no
+   chunks / one chunk written at Close), computed: the files differ, the content the lexer reports
+   per class does not.  With the big chunk the attachment and the metadata record are in the file
+   BEFORE the schema, channel and messages written earlier, hence the per-class comparison. *)
+Example ex_layouts :
+  render ex_trace <> render ex_trace_z /\ render ex_trace <> render ex_trace_u /\
+  render ex_trace <> render ex_trace_big /\
+  content_events (file_events ex_lo ds_z ex_trace) = content_events (file_events ex_lo ds_z ex_trace_z) /\
+  content_events (file_events ex_lo ds_z ex_trace) = content_events (file_events ex_lo ds_z ex_trace_u) /\
+  content_events (file_events ex_lo ds_z ex_trace) <> content_events (file_events ex_lo ds_z ex_trace_big) /\
+  filter ev_auto (data_events (file_events ex_lo ds_z ex_trace))
+    = filter ev_auto (data_events (file_events ex_lo ds_z ex_trace_big)) /\
+  filter ev_direct (data_events (file_events ex_lo ds_z ex_trace))
+    = filter ev_direct (data_events (file_events ex_lo ds_z ex_trace_big)).
+Proof.
+  refine (conj _ (conj _ (conj _ (conj _ (conj _ (conj _ (conj _ _))))))); vm_compute; first [reflexivity | discriminate].
+Qed.
+
+(* ---------- C11: the example file of LexerFactsB section 9, decorated ---------- *)
+Definition ex_inner_dec : list (byte * bytes) :=
+  [(x99, [x01]); (OpMessage, ex_m1); (xfe, []); (OpMessage, ex_m2); (x10, [x00; x00])].
+Definition ex_k_dec : chunk :=
+  {| k_start := 3; k_end := 5; k_usize := blen (frames ex_inner_dec); k_crc := crc32 (frames ex_inner_dec);
+     k_comp := []; k_records := frames ex_inner_dec |}.
+(* unknown records before the header, between data records, in the summary section (after
+   DataEnd), right before the footer, and inside the chunk *)
+Definition ex_recs_dec : list item :=
+  [IRec x80 []; IRec OpHeader (enc_header {| h_profile := []; h_library := [x6c] |}); IRec xff [x01; x02; x03];
+   IChunk ex_k_dec; IRec x81 [x00; x01]; IAttach LexerFactsB.ex_att ex_adata ex_acrc; IRec x10 [];
+   IRec OpDataEnd (u32 0); IRec x90 [xaa]; IFooter 0 0 0].
+Definition ex_items_dec : list item := [IMagic] ++ ex_recs_dec ++ [IMagic].
+
+Ltac ins_tac := apply D_ins; [reflexivity|unfold plain_rec_ok; cbn [fst snd];
+                              refine (conj _ (conj _ (conj _ (conj _ _)))); leaf|].
+
+Lemma ex_decorate validate cb :
+  decorate_file (ex_lopts validate false cb) ds_id ex_items ex_items_dec.
+Proof.
+  exists (middle ex_items), ex_recs_dec. split; [reflexivity|]. split; [reflexivity|].
+  unfold ex_recs_dec. cbn [middle ex_items ex_pre ex_mid ex_post app tl removelast].
+  ins_tac. apply D_keep. ins_tac.
+  apply D_chunk; [reflexivity|destruct validate; wf_chunk_tac| |].
+  - vm_compute. repeat first [apply IU_nil | apply IU_keep | (apply IU_ins; [reflexivity|])].
+  - apply D_keep. apply D_keep. ins_tac. apply D_keep. ins_tac. apply D_keep. apply D_nil.
+Qed.
+
+Example ex_decorated_hyps validate cb :
+  cb = CbNone \/ cb = CbFull ->
+  wf_file (ex_lopts validate false cb) ds_id ex_items /\
+  decorate_file (ex_lopts validate false cb) ds_id ex_items ex_items_dec /\
+  (file_steps (ex_lopts validate false cb) ds_id ex_items + 1 <= 40)%nat /\
+  (file_steps (ex_lopts validate false cb) ds_id ex_items_dec + 1 <= 40)%nat.
+Proof.
+  intro Hcb. split; [apply ex_wf_file, Hcb|]. split; [apply ex_decorate|].
+  destruct validate; destruct Hcb as [-> | ->]; vm_compute; lia.
+Qed.
+
+(* computed independently of the theorem: same events from both files *)
+Example ex_decorated_lex :
+  match lex_all ex_lo ds_id 40 (src_of (render ex_items) false),
+        lex_all ex_lo ds_id 40 (src_of (render ex_items_dec) false) with
+  | Ok (evs, EEOF, _), Ok (evs', EEOF, _) => evs = evs' /\ length evs = 6%nat
+  | _, _ => False
+  end.
+Proof. vm_compute. split; reflexivity. Qed.
+
+(* ---------- C12: the same file with the chunk split, recompressed, dissolved ---------- *)
+Definition ex_k_a : chunk :=
+  {| k_start := 3; k_end := 3; k_usize := blen (frames [(OpMessage, ex_m1)]); k_crc := 0;
+     k_comp := comp_zstd; k_records := comp_z 0 (frames [(OpMessage, ex_m1)]) |}.
+Definition ex_items_split : list item :=
+  ex_pre ++ IChunk ex_k_a :: IRec OpMessageIndex (enc_msgindex {| mi_chan := 1; mi_entries := [(3, 0)] |})
+         :: IRec OpMessage ex_m2 :: ex_mid ++ IAttach LexerFactsB.ex_att ex_adata ex_acrc :: ex_post.
+
+Lemma ex_items_wf_z : wf_file ex_lo ds_z ex_items.
+Proof. wf_file_tac. Qed.
+Lemma ex_items_split_wf : wf_file ex_lo ds_z ex_items_split.
+Proof. wf_file_tac. Qed.
+
+Example ex_split_hyps :
+  lo_emit_chunks ex_lo = false /\ wf_file ex_lo ds_z ex_items /\ wf_file ex_lo ds_z ex_items_split /\
+  filter is_content (data_records (lunz ex_lo ds_z) ex_items)
+    = filter is_content (data_records (lunz ex_lo ds_z) ex_items_split) /\
+  (file_steps ex_lo ds_z ex_items + 1 <= 40)%nat /\ (file_steps ex_lo ds_z ex_items_split + 1 <= 40)%nat /\
+  render ex_items <> render ex_items_split /\
+  file_events ex_lo ds_z ex_items <> file_events ex_lo ds_z ex_items_split.
+Proof.
+  split; [reflexivity|]. split; [apply ex_items_wf_z|]. split; [apply ex_items_split_wf|].
+  split; [vm_compute; reflexivity|]. split; [vm_compute; lia|]. split; [vm_compute; lia|].
+  split; vm_compute; discriminate.
+Qed.
+
+Example ex_rechunk_hyps :
+  chunk_stream ex_lo ds_z (k_comp ex_k) (k_records ex_k) None
+    = (frames ([(OpMessage, ex_m1)] ++ [(OpMessage, ex_m2)]), None) /\
+  chunk_stream ex_lo ds_z (k_comp ex_k_a) (k_records ex_k_a) None = (frames [(OpMessage, ex_m1)], None) /\
+  Forall (fun r : byte * bytes => blen (snd r) < two64) ([(OpMessage, ex_m1)] ++ [(OpMessage, ex_m2)]).
+Proof. split; [reflexivity|]. split; [reflexivity|]. repeat constructor. Qed.
+
+(* the padded attachment: hypotheses satisfiable, and computed on a concrete reader *)
+Example ex_attachment_pad :
+  wf_attach_item ex_lo LexerFactsB.ex_att ex_adata ex_acrc /\
+  do_attachment ex_lo (blen (attach_body LexerFactsB.ex_att ex_adata ex_acrc ++ [xde; xad]))
+    (rd ((attach_body LexerFactsB.ex_att ex_adata ex_acrc ++ [xde; xad]) ++ [x01]) None false)
+  = (Some (EvAttachment (attach_obs ex_lo LexerFactsB.ex_att ex_adata ex_acrc)), None, rd [x01] None false).
+Proof. split; [apply ex_wf_attach; right; reflexivity|vm_compute; reflexivity]. Qed.
